@@ -38,6 +38,7 @@ type Op struct {
 	Version uint64 `json:"version,omitempty"`
 	Size    int    `json:"size,omitempty"`
 	Splits  []int  `json:"splits,omitempty"` // buffer lengths the content is handed over in (cyclic)
+	Obj int `json:"obj,omitempty"` // publish / net: which of the two objects (0 or 1)
 	// net: fault applied to the Attempt-th Interest (0-based) for segment Seg (-1 = metadata) of the next consume
 	Seg     int    `json:"seg,omitempty"`
 	Attempt int    `json:"attempt,omitempty"`
@@ -94,6 +95,15 @@ func (Engine) Generate(prop string, r *kit.Rand, tier string) *kit.Scenario[Conf
 		}
 		sc.Ops = append(sc.Ops, o)
 	}
+	// sometimes a second object is published and fetched concurrently with the first
+	second := r.Chance(0.35)
+	if second {
+		o := Op{Op: "publish", Obj: 1, Version: uint64(r.Range(1, 9)), Size: kit.Pick(r, []int{1, 8000, 8001, 24000, 90000, 120001})}
+		if segs := (o.Size-1)/8000 + 1; segs > maxSegs {
+			maxSegs = segs
+		}
+		sc.Ops = append(sc.Ops, o)
+	}
 	// store-level differential operations
 	if r.Chance(0.5) {
 		names := []string{"/s/a/v=1/seg=0", "/s/a/v=2/seg=0", "/s/a/v=2/seg=1", "/s/b/v=3/seg=0", "/s/a/32=metadata/v=1/seg=0", "/s/a/32=metadata/v=2/seg=0"}
@@ -126,12 +136,30 @@ func (Engine) Generate(prop string, r *kit.Rand, tier string) *kit.Scenario[Conf
 	}
 	for i := 0; i < nf; i++ {
 		o := Op{Op: "net", Seg: r.Range(-1, maxSegs-1), Attempt: r.Weighted([]int{6, 3, 2, 1, 1})}
+		if second && r.Bool() {
+			o.Obj = 1
+		}
 		o.Act = kit.Pick(r, []string{"drop", "drop", "delay", "dup", "dropdata", "delaydata", "dupdata"})
 		if mode == 2 && r.Chance(0.4) {
 			o.Act = "drop"
 		}
 		o.DelayMs = kit.Pick(r, []int{1, 10, 100, 500, 900, 1500, 3900, 4100})
 		sc.Ops = append(sc.Ops, o)
+	}
+	if second && r.Chance(0.5) {
+		// one fetch loses a segment for good while the other still has all its Interests outstanding
+		a := r.Intn(2)
+		for at := 0; at < 4; at++ {
+			sc.Ops = append(sc.Ops, Op{Op: "net", Obj: a, Seg: r.Intn(2) * 0, Attempt: at, Act: "drop"})
+		}
+		b := 1 - a
+		if r.Chance(0.7) {
+			sc.Ops = append(sc.Ops, Op{Op: "net", Obj: b, Seg: 0, Attempt: 0, Act: "delaydata", DelayMs: kit.Pick(r, []int{100, 500, 900, 1500})})
+		}
+		sb := r.Range(1, 2)
+		for at := 0; at < r.Range(3, 4); at++ {
+			sc.Ops = append(sc.Ops, Op{Op: "net", Obj: b, Seg: sb, Attempt: at, Act: "drop"})
+		}
 	}
 	sc.Ops = append(sc.Ops, Op{Op: "consume"})
 	return sc
@@ -324,27 +352,27 @@ func (e Engine) run(ctx *kit.Ctx, sc *kit.Scenario[Config, Op], res *kit.Result,
 		synctest.Wait()
 	}()
 
-	objName := "/obj"
+	suffix := ""
 	for i := 1; i < sc.Config.NameDepth; i++ {
-		objName += fmt.Sprintf("/c%d", i)
+		suffix += fmt.Sprintf("/c%d", i)
 	}
-	published := map[uint64][]byte{}
-	newest := uint64(0)
+	objNames := [2]string{"/obj" + suffix, "/objB" + suffix}
+	published := [2]map[uint64][]byte{{}, {}}
+	newest := [2]uint64{}
 	type fault struct {
 		act   string
 		delay time.Duration
-		used  bool
 	}
-	faults := map[string]*fault{} // "seg|attempt|interest/data"
-	lossBeyondBudget := false
-	dropsPerSeg := map[int]int{}
+	faults := map[string]*fault{} // "obj|seg|attempt|interest/data"
+	dropsPerSeg := map[[2]int]int{}
 
 	for i := range sc.Ops {
 		o := &sc.Ops[i]
 		step = i
+		ob := o.Obj & 1
 		switch o.Op {
 		case "publish":
-			content := contentOf(o.Version, o.Size)
+			content := contentOf(o.Version+uint64(ob)*977, o.Size)
 			// hand the content over in the scenario's buffer split
 			var wire enc.Wire
 			for off, k := 0, 0; off < len(content); k++ {
@@ -361,23 +389,23 @@ func (e Engine) run(ctx *kit.Ctx, sc *kit.Scenario[Config, Op], res *kit.Result,
 				wire = append(wire, append([]byte(nil), content[off:off+n]...))
 				off += n
 			}
-			base := mkName(objName)
+			base := mkName(objNames[ob])
 			name := make(enc.Name, len(base), len(base)+sc.Config.SpareCap)
 			copy(name, base)
 			v := o.Version
 			got, err := producer.Produce(object.ProduceArgs{Name: name, Content: wire, Version: &v})
 			if err != nil {
-				fail("C15/produce-failed", "", "Produce(%s, %d bytes, v=%d) = %v", objName, o.Size, o.Version, err)
+				fail("C15/produce-failed", "", "Produce(%s, %d bytes, v=%d) = %v", objNames[ob], o.Size, o.Version, err)
 				return
 			}
-			want := append(mkName(objName), enc.NewVersionComponent(o.Version))
+			want := append(mkName(objNames[ob]), enc.NewVersionComponent(o.Version))
 			if !got.Equal(want) {
 				fail("C15/produced-name-wrong", fmt.Sprintf("spare-cap=%v", sc.Config.SpareCap > 0), "Produce returned %s, expected %s (name slice had spare capacity %d)", got, want, sc.Config.SpareCap)
 				return
 			}
-			published[o.Version] = content
-			if o.Version > newest {
-				newest = o.Version
+			published[ob][o.Version] = content
+			if o.Version > newest[ob] {
+				newest[ob] = o.Version
 			}
 			res.Steps++
 		case "storeop":
@@ -392,7 +420,7 @@ func (e Engine) run(ctx *kit.Ctx, sc *kit.Scenario[Config, Op], res *kit.Result,
 			if strings.HasSuffix(act, "data") {
 				kind, act = "data", strings.TrimSuffix(act, "data")
 			}
-			faults[fmt.Sprintf("%d|%d|%s", o.Seg, o.Attempt, kind)] = &fault{act: act, delay: time.Duration(o.DelayMs) * time.Millisecond}
+			faults[fmt.Sprintf("%d|%d|%d|%s", ob, o.Seg, o.Attempt, kind)] = &fault{act: act, delay: time.Duration(o.DelayMs) * time.Millisecond}
 			// a dropped transmission costs the name one of its four attempts; so does one
 			// delayed to (nearly) the Interest lifetime (1 s for metadata, 4 s for segments)
 			limit := 3500
@@ -400,44 +428,72 @@ func (e Engine) run(ctx *kit.Ctx, sc *kit.Scenario[Config, Op], res *kit.Result,
 				limit = 800
 			}
 			if act == "drop" || (act == "delay" && o.DelayMs >= limit) {
-				dropsPerSeg[o.Seg]++
+				dropsPerSeg[[2]int{ob, o.Seg}]++
 			}
 		case "consume":
-			if newest == 0 {
+			type fetch struct {
+				obj         int
+				want        []byte
+				nseg        int
+				got         []byte
+				completions int
+				cerr        error
+				progress    int
+				lossBeyond  bool
+			}
+			var fetches []*fetch
+			maxSeg := 0
+			for ob := 0; ob < 2; ob++ {
+				if newest[ob] == 0 {
+					continue
+				}
+				f := &fetch{obj: ob, want: published[ob][newest[ob]]}
+				f.nseg = (len(f.want)-1)/8000 + 1
+				if f.nseg > maxSeg {
+					maxSeg = f.nseg
+				}
+				for k, n := range dropsPerSeg {
+					if k[0] == ob && n >= 4 && k[1] < f.nseg {
+						f.lossBeyond = true // a name may lose all four attempts (first try + 3 retries)
+					}
+				}
+				fetches = append(fetches, f)
+			}
+			if len(fetches) == 0 {
 				continue
 			}
-			want := published[newest]
-			nseg := (len(want)-1)/8000 + 1
-			for s, n := range dropsPerSeg {
-				if n >= 4 && s < nseg {
-					lossBeyondBudget = true // a name may lose all four attempts (first try + 3 retries)
-				}
-				if n >= 1 && s < nseg {
-					_ = s
-				}
+			if len(fetches) == 2 {
+				ctx.Probe("two-concurrent-fetches")
 			}
-			var got []byte
-			completions := 0
-			var cerr error
-			progressCalls := 0
-			consumer.Consume(mkName(objName), func(st *object.ConsumeState) bool {
-				progressCalls++
-				got = append(got, st.Content()...)
-				if st.IsComplete() {
-					completions++
-					cerr = st.Error()
+			for _, f := range fetches {
+				f := f
+				consumer.Consume(mkName(objNames[f.obj]), func(st *object.ConsumeState) bool {
+					f.progress++
+					f.got = append(f.got, st.Content()...)
+					if st.IsComplete() {
+						f.completions++
+						f.cerr = st.Error()
+					}
+					return true
+				})
+			}
+			allDone := func() bool {
+				for _, f := range fetches {
+					if f.completions == 0 {
+						return false
+					}
 				}
 				return true
-			})
+			}
 			// the network
 			var queue []inflight
 			seq := 0
-			attempts := map[int]int{} // per segment: Interests seen
-			dattempts := map[int]int{}
-			segOf := func(frame []byte) (int, bool, string) {
+			attempts := map[[2]int]int{} // per (object, segment): Interests seen
+			dattempts := map[[2]int]int{}
+			segOf := func(frame []byte) (int, int, bool, string) {
 				p, _, err := spec.ReadPacket(enc.NewBufferReader(frame))
 				if err != nil {
-					return -2, false, ""
+					return 0, -2, false, ""
 				}
 				var n enc.Name
 				isData := false
@@ -446,45 +502,48 @@ func (e Engine) run(ctx *kit.Ctx, sc *kit.Scenario[Config, Op], res *kit.Result,
 				} else if p.Data != nil {
 					n, isData = p.Data.NameV, true
 				} else {
-					return -2, false, ""
+					return 0, -2, false, ""
+				}
+				ob := 0
+				if len(n) > 0 && string(n[0].Val) == "objB" {
+					ob = 1
 				}
 				for _, c := range n {
 					if c.Typ == enc.TypeKeywordNameComponent {
-						return -1, isData, n.String()
+						return ob, -1, isData, n.String()
 					}
 				}
 				if len(n) > 0 && n[len(n)-1].Typ == enc.TypeSegmentNameComponent {
-					return int(n[len(n)-1].NumberVal()), isData, n.String()
+					return ob, int(n[len(n)-1].NumberVal()), isData, n.String()
 				}
-				return -2, isData, n.String()
+				return ob, -2, isData, n.String()
 			}
-			deadline := now() + time.Duration(nseg/10+3)*20*time.Second + 30*time.Second
+			// packets sent at the same instant by different goroutines are taken in a canonical order
+			sortByName := func(fs [][]byte) [][]byte {
+				sort.SliceStable(fs, func(i, j int) bool {
+					_, _, _, a := segOf(fs[i])
+					_, _, _, b := segOf(fs[j])
+					return a < b
+				})
+				return fs
+			}
+			deadline := now() + time.Duration(maxSeg/10+3)*20*time.Second + 30*time.Second
 			reordered, retrans := false, false
-			lastDeliveredSeg := -1
-			for completions == 0 && now() < deadline {
+			lastDeliveredSeg := [2]int{-1, -1}
+			for !allDone() && now() < deadline {
 				synctest.Wait()
 				// take what both sides sent
-				// packets sent at the same instant by different goroutines are taken in a canonical order
-				sortByName := func(fs [][]byte) [][]byte {
-					sort.SliceStable(fs, func(i, j int) bool {
-						_, _, a := segOf(fs[i])
-						_, _, b := segOf(fs[j])
-						return a < b
-					})
-					return fs
-				}
 				for _, f := range sortByName(fc.drain()) {
-					seg, _, _ := segOf(f)
-					a := attempts[seg]
-					attempts[seg]++
+					ob, seg, _, _ := segOf(f)
+					a := attempts[[2]int{ob, seg}]
+					attempts[[2]int{ob, seg}]++
 					if a > 0 {
 						retrans = true
 						ctx.Probe("retransmission")
 					}
-					fl := faults[fmt.Sprintf("%d|%d|interest", seg, a)]
+					fl := faults[fmt.Sprintf("%d|%d|%d|interest", ob, seg, a)]
 					at := now()
 					if fl != nil {
-						fl.used = true
 						ctx.Fault("interest-" + fl.act)
 						switch fl.act {
 						case "drop":
@@ -500,20 +559,23 @@ func (e Engine) run(ctx *kit.Ctx, sc *kit.Scenario[Config, Op], res *kit.Result,
 					queue = append(queue, inflight{at: at, seq: seq, toP: true, frame: f})
 				}
 				for _, f := range sortByName(fp.drain()) {
-					seg, _, _ := segOf(f)
-					a := dattempts[seg]
-					dattempts[seg]++
-					fl := faults[fmt.Sprintf("%d|%d|data", seg, a)]
+					ob, seg, _, _ := segOf(f)
+					a := dattempts[[2]int{ob, seg}]
+					dattempts[[2]int{ob, seg}]++
+					fl := faults[fmt.Sprintf("%d|%d|%d|data", ob, seg, a)]
 					at := now()
 					if fl != nil {
-						fl.used = true
 						ctx.Fault("data-" + fl.act)
 						switch fl.act {
 						case "drop":
 							// a lost Data costs the Interest one attempt
-							dropsPerSeg[seg]++
-							if dropsPerSeg[seg] >= 4 {
-								lossBeyondBudget = true
+							dropsPerSeg[[2]int{ob, seg}]++
+							if dropsPerSeg[[2]int{ob, seg}] >= 4 {
+								for _, ft := range fetches {
+									if ft.obj == ob {
+										ft.lossBeyond = true
+									}
+								}
 							}
 							continue
 						case "delay":
@@ -541,12 +603,12 @@ func (e Engine) run(ctx *kit.Ctx, sc *kit.Scenario[Config, Op], res *kit.Result,
 					if m.toP {
 						fp.onPkt(enc.NewBufferReader(append([]byte(nil), m.frame...)))
 					} else {
-						if seg, isData, _ := segOf(m.frame); isData && seg >= 0 {
-							if seg < lastDeliveredSeg {
+						if ob, seg, isData, _ := segOf(m.frame); isData && seg >= 0 {
+							if seg < lastDeliveredSeg[ob] {
 								reordered = true
 								ctx.Probe("segment-reordered")
 							}
-							lastDeliveredSeg = max(lastDeliveredSeg, seg)
+							lastDeliveredSeg[ob] = max(lastDeliveredSeg[ob], seg)
 						}
 						fc.onPkt(enc.NewBufferReader(append([]byte(nil), m.frame...)))
 					}
@@ -580,33 +642,40 @@ func (e Engine) run(ctx *kit.Ctx, sc *kit.Scenario[Config, Op], res *kit.Result,
 			}
 			time.Sleep(20 * time.Second)
 			synctest.Wait()
-			key := fmt.Sprintf("%s/segs=%d", sc.Config.Store, min(nseg, 3))
-			switch {
-			case completions == 0:
-				fail("C15/fetch-never-completes", key, "no completion (success or error) %v after the fetch started; %d progress callbacks, %d of %d bytes", now(), progressCalls, len(got), len(want))
-			case completions > 1:
-				fail("C15/completion-reported-twice", key, "completion callback reported %d times", completions)
-			case cerr == nil && !bytes.Equal(got, want):
-				at := 0
-				for at < len(got) && at < len(want) && got[at] == want[at] {
-					at++
+			for _, f := range fetches {
+				key := fmt.Sprintf("%s/segs=%d", sc.Config.Store, min(f.nseg, 3))
+				if len(fetches) == 2 {
+					key += "/concurrent"
 				}
-				fail("C15/content-differs", key, "fetch reported success with %d bytes, newest version v=%d has %d bytes; first difference at offset %d (reordered=%v retransmitted=%v)", len(got), newest, len(want), at, reordered, retrans)
-			case cerr != nil && !lossBeyondBudget:
-				fail("C15/fetch-failed-within-retry-budget", key, "fetch of %s (v=%d, %d segments) failed with %v although no name lost more than 3 transmissions", objName, newest, nseg, cerr)
+				switch {
+				case f.completions == 0:
+					fail("C15/fetch-never-completes", key, "no completion (success or error) of %s %v after the fetch started; %d progress callbacks, %d of %d bytes", objNames[f.obj], now(), f.progress, len(f.got), len(f.want))
+				case f.completions > 1:
+					fail("C15/completion-reported-twice", key, "completion callback of %s reported %d times", objNames[f.obj], f.completions)
+				case f.cerr == nil && !bytes.Equal(f.got, f.want):
+					at := 0
+					for at < len(f.got) && at < len(f.want) && f.got[at] == f.want[at] {
+						at++
+					}
+					fail("C15/content-differs", key, "fetch of %s reported success with %d bytes, newest version v=%d has %d bytes; first difference at offset %d (reordered=%v retransmitted=%v)", objNames[f.obj], len(f.got), newest[f.obj], len(f.want), at, reordered, retrans)
+				case f.cerr != nil && !f.lossBeyond:
+					fail("C15/fetch-failed-within-retry-budget", key, "fetch of %s (v=%d, %d segments) failed with %v although no name lost more than 3 transmissions", objNames[f.obj], newest[f.obj], f.nseg, f.cerr)
+				}
+				if f.cerr == nil {
+					ctx.Probe("fetch-complete")
+				} else {
+					ctx.Probe("fetch-error")
+				}
+				if f.nseg >= 2 && (reordered || retrans) {
+					res.NonTrivial = true
+				}
 			}
-			if cerr == nil {
-				ctx.Probe("fetch-complete")
-			} else {
-				ctx.Probe("fetch-error")
-			}
-			res.NonTrivial = nseg >= 2 && (reordered || retrans)
 		}
 	}
 	res.SimNanos = int64(now())
 	d := kit.NewDigest().S(sc.Config.Store).I(sc.Config.SpareCap)
 	for _, o := range sc.Ops {
-		d.S(o.Op).U(o.Version).I(o.Size).I(o.Seg).I(o.Attempt).S(o.Act).I(o.DelayMs).S(o.SOp).S(o.SName)
+		d.S(o.Op).I(o.Obj).U(o.Version).I(o.Size).I(o.Seg).I(o.Attempt).S(o.Act).I(o.DelayMs).S(o.SOp).S(o.SName)
 	}
 	res.Digest = d.Sum()
 	ctx.State(res.Digest)
